@@ -7,11 +7,12 @@ ghost witness (an arbitrary index of the offending import / call).
 Layer A is C03 (every import / call the VM would perform is anchored in the module body) and the trusted reading of ast.NodeVisitor
 and ast.unparse; the composition over opcode choice / framing / memo use / disposal of the value is sampled by replay/floor_diff.py."""
 import copy
+import re
 import os
 import sys
 import z3
 sys.path.insert(0, os.path.dirname(os.path.dirname(os.path.abspath(__file__))))
-from props.common import main, Run, run_child, ALL_SIDECARS  # noqa: E402
+from props.common import main, Run, run_child, load_known, witnesses_for, ALL_SIDECARS  # noqa: E402
 from props.analyses import analysis_contracts, BASE_INV, CTX_FRAME  # noqa: E402
 from pyvc.calls import Contract  # noqa: E402
 from pyvc.sorts import V, Val, Int, Str, vbool, vint, box  # noqa: E402
@@ -211,17 +212,25 @@ def build(run: Run):
     only = os.environ.get("VERIF_ONLY")
     pending += [k for k in verify_keys if not (only and only not in k)]
     pending += chain(run, keys)
+    # "outside the standard library" is judged on the module name as the pickle writes it: is_std_module against its definition (IS_STD)
+    if not (only and only not in "fickle.is_std_module"):
+        pending.append("fickle.is_std_module")
     run.verify_batch(pending)
     d = run_child(run.repo.root, "floor_diff.py", [str(run.seed)])
     if "error" in d:
         raise RuntimeError(f"replay/floor_diff.py failed: {d}")
-    viol = []
+    viol, hits = [], []
+    known = [k for k in load_known().get("known", []) if k.get("property") == "C04"]
     for f in d.get("failures", []):
         f = dict(f)
-        f["name"] = "floor_diff:" + f["label"]
-        if not any(v["name"] == f["name"] for v in viol):
+        f["name"] = fd_name(f)
+        k = next((k for k in known if re.search(k["obligation"], f["name"])), None)
+        if k is not None:
+            if k["what"] not in hits:
+                hits.append(k["what"])
+        elif not any(v["name"] == f["name"] for v in viol):
             viol.append(f)
-    run.bounded_parts.append({"name": "floor_diff", "label": "bounded",
+    run.bounded_parts.append({"name": "floor_diff", "label": "bounded", "known_findings": hits,
                               "what": "replay/floor_diff.py: labelled vocabulary of globals x {GLOBAL, STACK_GLOBAL (plain / memoised operands), INST} x "
                                       "{REDUCE (3 forms), OBJ, NEWOBJ, NEWOBJ_EX, via memo, via DUP} x 6 disposals of the value x benign data before / "
                                       "after x framing: the verdict of check_safety against the floor of the label (composition of layers A and B)",
@@ -320,6 +329,12 @@ def chain(run, keys):
     return todo
 
 
+def fd_name(f):
+    """floor_diff:<label>[:<module> for the labels whose floor depends on a renaming table]"""
+    lab = f["label"]
+    return "floor_diff:" + lab + (":" + f["program"].split("/")[0].rsplit(".", 1)[0] if "py2" in lab else "")
+
+
 def make_replayer(run):
     cache = {}
 
@@ -327,8 +342,9 @@ def make_replayer(run):
         if "d" not in cache:
             cache["d"] = run_child(run.repo.root, "floor_diff.py", [str(run.seed)])
         d = cache["d"]
-        if d.get("n_failures"):
-            f = d["failures"][0]
+        fl = witnesses_for("C04", o, d.get("failures", []), fd_name)
+        if fl:
+            f = fl[0]
             return {"reproduced": True, "failing_input_hex": f["bytes"], "program": f["program"], "label": f["label"], "verdict": f["verdict"],
                     "floor": f["floor"], "how": "labelled vocabulary x resolving opcode x calling opcode x disposal x framing (replay/floor_diff.py)"}
         return {"reproduced": False, "searched": {k: v for k, v in d.items() if k != "failures"}}
